@@ -21,6 +21,7 @@ import iso_gen as G
 import iso_core as C
 
 SEEDS = C.SEEDS
+TABLES = ()     # no generated constant table is part of this property's tie
 WHAT = {3: "a read changed a caption set returned earlier",
         4: "a read returned something else than the same read in a pristine process",
         5: "an edit of one caption set changed another caption set",
